@@ -2,6 +2,8 @@ import NunavutVerif.Model.Variant
 import NunavutVerif.Model.CppObj
 import NunavutVerif.Model.CBuf
 import NunavutVerif.Gen.VariantTables
+import NunavutVerif.Gen.CArrayKinds
+import NunavutVerif.Gen.ErrorCodes
 import NunavutVerif.Proto
 /-!
 Driver for the C04 correspondence.  One request per line:
@@ -15,6 +17,9 @@ Driver for the C04 correspondence.  One request per line:
         decode A into a value-initialised C++ object, then B into the same object (`fix` = repaired template);
         sizes = sizes of all containers of the final object in traversal order
   `cser <checkCap> <cmpStorage> <capBytes> <fields> <vals>` / `cde <cmpStorage> <fields> <hex>`
+  `cserapi <objNull> <bufNull> <sizeNull> <checkCap> <cmpStorage> <capBytes> <fields> <vals>` / `cdeapi <objNull> <bufNull> <sizeNull> <cmpStorage> <fields> <hex>`
+  `rowfield <kind> <override> <little> <lp> <eb> <cap> <usr>` (Gen/CArrayKinds) / `codes c|cpp|c-returned|cpp-returned` (Gen/ErrorCodes)
+  fields: `p:w:c` | `v:lp:eb:cap:sl:lpc:ec` | `vb:lp:cap:sl:storMacro:cmpS:cmpD:lpc` | `fa:eb:cap:ec` | `fb:cap`
         the flat index-safety model (`Model/CBuf.lean`); fields `;`-separated `p:<w>:<checked>` |
         `v:<lp>:<eb>:<cap>:<sl>:<lpChecked>:<elemsChecked>`; vals `p` | `c:<count>`
         → `ok <bits>` | `err:<code>` | `oob-buffer` | `oob-object` | `shape`
@@ -170,12 +175,45 @@ open NunavutVerif.CBuf
 
 def parseBool (s : String) : Option Bool := if s = "1" then some true else if s = "0" then some false else none
 
+def parseCmp (s : String) : Option Cmp := if s = "lit" then some .lit else if s = "macro" then some .macro else none
+
 def parseField (s : String) : Option Field :=
   match s.splitOn ":" with
   | ["p", w, c] => do some (.prim (← w.toNat?) (← parseBool c))
   | ["v", lp, eb, cap, sl, a, b] =>
     do some (.varr (← lp.toNat?) (← eb.toNat?) (← cap.toNat?) (← sl.toNat?) (← parseBool a) (← parseBool b))
+  | ["vb", lp, cap, sl, sm, cS, cD, a] =>
+    do some (.vbits (← lp.toNat?) (← cap.toNat?) (← sl.toNat?) (← parseBool sm) (← parseCmp cS) (← parseCmp cD) (← parseBool a))
+  | ["fa", eb, cap, c] => do some (.farr (← eb.toNat?) (← cap.toNat?) (← parseBool c))
+  | ["fb", cap] => do some (.fbits (← cap.toNat?))
   | _ => none
+
+def b01 (b : Bool) : String := if b then "1" else "0"
+
+def showCmp : Cmp → String
+  | .lit => "lit"
+  | .macro => "macro"
+
+def showField : Field → String
+  | .prim w c => s!"p:{w}:{b01 c}"
+  | .varr lp eb cap sl a b => s!"v:{lp}:{eb}:{cap}:{sl}:{b01 a}:{b01 b}"
+  | .vbits lp cap sl sm cS cD a => s!"vb:{lp}:{cap}:{sl}:{b01 sm}:{showCmp cS}:{showCmp cD}:{b01 a}"
+  | .farr eb cap c => s!"fa:{eb}:{cap}:{b01 c}"
+  | .fbits cap => s!"fb:{cap}"
+
+/-- `rowfield <kind> <override> <little> <lp> <eb> <cap> <usr>`: the model field of the generated table's row -/
+def answerRowField (kind ov le lp eb cap usr : String) : String :=
+  match parseBool ov, parseBool le, lp.toNat?, eb.toNat?, cap.toNat?, usr.toNat? with
+  | some ov, some le, some lp, some eb, some cap, some usr =>
+    match Gen.CArrayKinds.rows.find? (fun r => r.kind == kind && r.override == ov && r.little == le) with
+    | some r =>
+      match r.field lp eb cap usr with
+      | some f => s!"ok {showField f} cs={b01 r.cs} safe={b01 r.safe}"
+      | none => s!"inexpressible safe={b01 r.safe}"
+    | none => "unknown-row"
+  | _, _, _, _, _, _ => "bad-op"
+
+def showCodes (l : List (String × Nat)) : String := ",".intercalate (l.map fun p => s!"{p.1}={p.2}")
 
 def parseVal (s : String) : Option FVal :=
   match s.splitOn ":" with
@@ -188,6 +226,7 @@ def showOut : Out → String
   | .err .bufferTooSmall => "err:buffer-too-small"
   | .err .badArrayLength => "err:bad-array-length"
   | .err .badUnionTag => "err:bad-union-tag"
+  | .err .invalidArgument => "err:invalid-argument"
   | .oobBuffer _ _ => "oob-buffer"
   | .oobObject _ _ => "oob-object"
   | .shape => "shape"
@@ -216,6 +255,23 @@ def answer (line : String) : String :=
           (splitOnChar vals ';').mapM BDrv.parseVal with
     | some cc, some cs, some cap, some fs, some vs => BDrv.showOut (CBuf.ser cc cs (.struct fs) (.struct vs) cap)
     | _, _, _, _, _ => "bad-op"
+  | ["cserapi", n1, n2, n3, cc, cs, cap, fields, vals] =>
+    match BDrv.parseBool n1, BDrv.parseBool n2, BDrv.parseBool n3, BDrv.parseBool cc, BDrv.parseBool cs, cap.toNat?,
+          (splitOnChar fields ';').mapM BDrv.parseField, (splitOnChar vals ';').mapM BDrv.parseVal with
+    | some n1, some n2, some n3, some cc, some cs, some cap, some fs, some vs =>
+      BDrv.showOut (CBuf.serApi n1 n2 n3 cc cs (.struct fs) (.struct vs) cap)
+    | _, _, _, _, _, _, _, _ => "bad-op"
+  | ["cdeapi", n1, n2, n3, cs, fields, hex] =>
+    match BDrv.parseBool n1, BDrv.parseBool n2, BDrv.parseBool n3, BDrv.parseBool cs, (splitOnChar fields ';').mapM BDrv.parseField,
+          XDrv.parseHex hex with
+    | some n1, some n2, some n3, some cs, some fs, some bytes =>
+      BDrv.showOut (CBuf.deApi n1 n2 n3 bytes.length cs (BDrv.rdBytes bytes) (.struct fs))
+    | _, _, _, _, _, _ => "bad-op"
+  | ["rowfield", kind, ov, le, lp, eb, cap, usr] => BDrv.answerRowField kind ov le lp eb cap usr
+  | ["codes", "c"] => BDrv.showCodes Gen.ErrorCodes.c
+  | ["codes", "cpp"] => BDrv.showCodes Gen.ErrorCodes.cpp
+  | ["codes", "c-returned"] => ",".intercalate Gen.ErrorCodes.cReturned
+  | ["codes", "cpp-returned"] => ",".intercalate Gen.ErrorCodes.cppReturned
   | ["cde", cs, fields, hex] =>
     match BDrv.parseBool cs, (splitOnChar fields ';').mapM BDrv.parseField, XDrv.parseHex hex with
     | some cs, some fs, some bytes => BDrv.showOut (CBuf.de cs (BDrv.rdBytes bytes) (.struct fs))
